@@ -112,6 +112,8 @@ def pool(tname, variant, tier):
         names = ["r1", "read2 1:N:0:ACGT", "q", "SRR001666.1 071112_SLXA-EAS1_s_7:5:1:817:345 length=36", "x/1", "ab",
                  "r.7", "@odd"]
         return [[names[j], _lcg_seq(L, j + 11, alph), _qual(L, j)] for j, L in enumerate(FASTQ_LENGTHS)]
+    if tname == "vcfentry":
+        return pool("vcf", variant, tier)
     if tname == "vcf":
         return [["chr1", 0, ".", "A", "T", ".", "PASS", "."],
                 ["2", 99, "rs1", "AC", "G,T", "30", ".", "DP=3;AF=0.5"],
@@ -730,7 +732,7 @@ TYPE_VARIANTS = [("interval", None), ("interval", "strenc"), ("bed6", None), ("b
                  ("narrowpeak", None), ("fasta", "base"), ("fasta", "dna"), ("fasta2", "base"), ("fastq", "base"),
                  ("fastq", "dna"), ("vcf", None), ("sam", None), ("gtf", None), ("custom_tsv", None),
                  ("custom_csv", None)]
-MINOR_VARIANTS = [("fasta", "acgtn"), ("fasta", "rna"), ("fasta", "aa"), ("fastq", "acgtn"), ("fastq", "rna"),
+MINOR_VARIANTS = [("vcfentry", None), ("fasta", "acgtn"), ("fasta", "rna"), ("fasta", "aa"), ("fastq", "acgtn"), ("fastq", "rna"),
                   ("fastq", "aa"), ("fasta2", "dna"), ("bed6", "strenc"), ("gtf", "strenc"), ("vcf", "strenc"),
                   ("sam", "strenc")]
 
@@ -776,7 +778,7 @@ def tables(K, n_rows, tier):
             out.append((idx, rich))
         return out
     if tier == "thorough":
-        return [(idx, sum(idx) % 3 == 0) for idx in itertools.product(range(K), repeat=3)]
+        return [(idx, sum(idx) % 5 == 0) for idx in itertools.product(range(K), repeat=3)]
     return [((i, j, (i + 2 * j + 1) % K), (i + j) % 4 == 0) for i in range(K) for j in range(K)]
 
 
@@ -903,6 +905,8 @@ def lazy_family(tier):
                     if kind in ("int", "vcfpos", "id", "str"):
                         if tname == "sam" and fname == "extra":
                             continue
+                        if tname == "vcf" and fname == "info":
+                            continue            # typed Union[dataclass, str] on the class that is read: see type "vcfentry"
                         mods.append({"field": fname, "values": _alt_values(kind, rows, j)})
                 if tier == "quick":
                     mods = mods[:1] + [m for m in mods[1:] if m["field"] in ("position", "start", "chromosome", "name", "summit", "thick_end", "ref_seq", "cigar", "source", "length", "id")]
@@ -910,7 +914,7 @@ def lazy_family(tier):
                     sp = [[n]] + ([[1] * n] if n > 1 else []) + ([[1, n - 1]] if n > 2 else [])
                     for s in sp:
                         for mode in (("multi", "stream", "append") if len(s) > 1 else ("multi",)):
-                            for gz in ((False, True) if (mode == "append" or tier == "thorough") else (False,)):
+                            for gz in ((False, True) if (mode == "append" or (tier == "thorough" and mode == "multi" and len(s) > 1)) else (False,)):
                                 if tier == "quick" and hi > 0 and mode == "stream" and mod is not None:
                                     continue
                                 yield {"kind": "lazy", "type": tname, "rows": rows, "header": header, "modify": mod, "split": s, "mode": mode, "gz": gz}
